@@ -65,6 +65,44 @@ fn plan_candidates(p: &Plan) -> Vec<Plan> {
             ..p.clone()
         });
     }
+    if !p.stalls.is_empty() {
+        out.push(Plan {
+            stalls: vec![],
+            ..p.clone()
+        });
+        if p.stalls.len() > 1 {
+            for i in 0..p.stalls.len() {
+                let mut st = p.stalls.clone();
+                st.remove(i);
+                out.push(Plan {
+                    stalls: st,
+                    ..p.clone()
+                });
+            }
+        }
+        for i in 0..p.stalls.len() {
+            // shorter, and at the start of the file
+            for ms in [1_001u64, 60_001, 3_600_000] {
+                if ms < p.stalls[i].1 {
+                    let mut st = p.stalls.clone();
+                    st[i].1 = ms;
+                    out.push(Plan {
+                        stalls: st,
+                        ..p.clone()
+                    });
+                }
+            }
+            if p.stalls[i].0 != 0 {
+                let mut st = p.stalls.clone();
+                st[i].0 = 0;
+                st.sort_unstable();
+                out.push(Plan {
+                    stalls: st,
+                    ..p.clone()
+                });
+            }
+        }
+    }
     if p.replace_before_open.is_some() {
         out.push(Plan {
             replace_before_open: None,
